@@ -34,6 +34,10 @@ pub struct Scenario {
     pub steps: Vec<Step>,
     /// Compare a full Debug dump of the context with a pristine one afterwards.
     pub deep_check: bool,
+    /// Also evaluate the k-th query (modulo their number) on a context that has
+    /// never evaluated anything, and compare.
+    #[serde(default)]
+    pub probe_step: Option<u32>,
 }
 
 static CURRENCY_SNAPSHOT: &str = include_str!(concat!(
@@ -109,6 +113,61 @@ fn short(s: &str) -> String {
     }
 }
 
+/// Evaluate `query` on `ctx` (touched only through `&self` and two public
+/// fields) once per alternative of the model, and return the alternatives whose
+/// reply equals the observed one, each mapped to what `ans` may be afterwards
+/// (flagged when the statement leaves it open), plus all expected texts.
+#[allow(clippy::too_many_arguments)]
+fn judge(
+    ctx: &mut Context,
+    model: &[Option<Number>],
+    query: &Query,
+    now: DateTime<Local>,
+    flag: bool,
+    plain: bool,
+    got_json: &serde_json::Value,
+    got_text: &str,
+) -> (Vec<(Option<Number>, bool)>, Vec<String>) {
+    let mut matched: Vec<(Option<Number>, bool)> = Vec::new();
+    let mut expected_texts = Vec::new();
+    for alt in model {
+        ctx.previous_result = alt.clone();
+        ctx.set_time(now);
+        let want = ctx.eval_query(query);
+        let (want_json, want_text) = render(&want);
+        if want_json == *got_json && want_text == got_text {
+            match &want {
+                Ok(QueryReply::Number(parts)) if flag && plain => match &parts.raw_value {
+                    Some(raw) => matched.push((Some(raw.clone()), false)),
+                    None => matched.push((alt.clone(), false)),
+                },
+                Ok(QueryReply::Number(parts)) if flag => {
+                    // A numeric reply to something that is not a plain expression
+                    // (`x ->` with nothing after the arrow): the statement can be
+                    // read either way.
+                    matched.push((alt.clone(), false));
+                    if let Some(raw) = &parts.raw_value {
+                        matched.push((Some(raw.clone()), false));
+                    }
+                }
+                Ok(QueryReply::Duration(d)) if flag && plain => {
+                    // A result in seconds is rendered as a duration breakdown; whether
+                    // it counts as "numeric result" is left open by the statement:
+                    // accept both.
+                    matched.push((alt.clone(), true));
+                    if let Some(raw) = &d.raw.raw_value {
+                        matched.push((Some(raw.clone()), true));
+                    }
+                }
+                _ => matched.push((alt.clone(), false)),
+            }
+        }
+        expected_texts.push(want_text);
+    }
+    ctx.previous_result = None;
+    (matched, expected_texts)
+}
+
 fn run_history(sc: &Scenario, fresh_reference: bool) -> (Option<Violation>, Vec<String>, u64, BTreeMap<String, u64>) {
     let stats: RefCell<BTreeMap<String, u64>> = RefCell::new(BTreeMap::new());
     let bump = |k: &str| *stats.borrow_mut().entry(k.to_string()).or_insert(0) += 1;
@@ -146,6 +205,17 @@ fn run_history(sc: &Scenario, fresh_reference: bool) -> (Option<Violation>, Vec<
         let mut history = Vec::new();
         let mut digest = Fnv::default();
         let mut violation: Option<Violation> = None;
+        let query_steps: Vec<usize> = sc
+            .steps
+            .iter()
+            .enumerate()
+            .filter(|(_, s)| matches!(s, Step::Query(_)))
+            .map(|(i, _)| i)
+            .collect();
+        let probe_at: Option<usize> = match sc.probe_step {
+            Some(k) if !query_steps.is_empty() => Some(query_steps[k as usize % query_steps.len()]),
+            _ => None,
+        };
 
         for (i, step) in sc.steps.iter().enumerate() {
             match step {
@@ -176,46 +246,42 @@ fn run_history(sc: &Scenario, fresh_reference: bool) -> (Option<Violation>, Vec<
                     let mut iter = text_query::TokenIterator::new(line.trim()).peekable();
                     let query = text_query::parse_query(&mut iter);
                     let plain = matches!(query, Query::Expr(_));
-                    let mut matched: Vec<Option<Number>> = Vec::new();
-                    let mut expected_texts = Vec::new();
-                    for alt in &model {
-                        reference.previous_result = alt.clone();
-                        reference.set_time(now);
-                        let want = reference.eval_query(&query);
-                        let (want_json, want_text) = render(&want);
-                        if want_json == got_json && want_text == got_text {
-                            // What `ans` may be after this step, given this alternative.
-                            match &want {
-                                Ok(QueryReply::Number(parts)) if flag && plain => {
-                                    match &parts.raw_value {
-                                        Some(raw) => matched.push(Some(raw.clone())),
-                                        None => matched.push(alt.clone()),
-                                    }
-                                }
-                                Ok(QueryReply::Number(parts)) if flag => {
-                                    // A numeric reply to something that is not a plain
-                                    // expression (`x ->` with nothing after the arrow):
-                                    // the statement can be read either way.
-                                    matched.push(alt.clone());
-                                    if let Some(raw) = &parts.raw_value {
-                                        matched.push(Some(raw.clone()));
-                                    }
-                                }
-                                Ok(QueryReply::Duration(d)) if flag && plain => {
-                                    // A result in seconds is rendered as a duration
-                                    // breakdown; whether it counts as "numeric result" is
-                                    // left open by the statement: accept both.
-                                    matched.push(alt.clone());
-                                    if let Some(raw) = &d.raw.raw_value {
-                                        matched.push(Some(raw.clone()));
-                                    }
-                                    bump("duration_reply_both_accepted");
-                                }
-                                _ => matched.push(alt.clone()),
-                            }
-                        }
-                        expected_texts.push(want_text);
+                    let (mut matched, mut expected_texts) =
+                        judge(reference, &model, &query, now, flag, plain, &got_json, &got_text);
+                    if matched.iter().any(|(_, d)| *d) {
+                        bump("duration_reply_both_accepted");
                     }
+                    if matched.is_empty() {
+                        // The shared reference disagrees. Arbitrate with a context that has
+                        // never evaluated anything: only that makes the verdict a pure
+                        // function of this history.
+                        bump("arbitrated_with_pristine_context");
+                        let mut p = fresh_context();
+                        let (m2, e2) = judge(&mut p, &model, &query, now, flag, plain, &got_json, &got_text);
+                        if m2.is_empty() {
+                            expected_texts = e2;
+                        } else {
+                            // The reference had drifted (state leaked through &self in an
+                            // earlier history); replace it and go on with the pristine verdict.
+                            bump("shared_reference_had_drifted");
+                            *reference = fresh_context();
+                            matched = m2;
+                        }
+                    }
+                    if !matched.is_empty() && probe_at == Some(i) {
+                        // Pristine probe: the same query on a context that has evaluated
+                        // nothing before it. State that leaks between queries through
+                        // shared references (a cache, a memo) shows here even when the
+                        // reference context leaks in exactly the same way.
+                        bump("pristine_probe");
+                        let mut p = fresh_context();
+                        let (m3, e3) = judge(&mut p, &model, &query, now, flag, plain, &got_json, &got_text);
+                        if m3.is_empty() {
+                            matched.clear();
+                            expected_texts = e3;
+                        }
+                    }
+                    let matched: Vec<Option<Number>> = matched.into_iter().map(|(m, _)| m).collect();
                     reference.previous_result = None;
                     match &got {
                         Ok(QueryReply::Number(_)) => bump("reply_number"),
@@ -302,7 +368,9 @@ fn run_history(sc: &Scenario, fresh_reference: bool) -> (Option<Violation>, Vec<
                 }
             }
         }
-        if violation.is_none() && sc.deep_check {
+        // VERIF_C15_NO_DUMP=1 (experiments only): skip the dump comparison to see
+        // what the per-step checks catch on their own.
+        if violation.is_none() && sc.deep_check && std::env::var_os("VERIF_C15_NO_DUMP").is_none() {
             bump("deep_check");
             let d = dump_hash(&mut live);
             if d != st.pristine_dump {
@@ -433,7 +501,7 @@ impl Harness for C15 {
     fn budget(&self, tier: Tier) -> Budget {
         match tier {
             Tier::Quick => Budget {
-                runs: 10_000,
+                runs: 7_000,
                 soft_s: 60,
             },
             Tier::Thorough => Budget {
@@ -455,12 +523,12 @@ impl Harness for C15 {
             weights[1] = 3;
         }
         let max = match tier {
-            Tier::Quick => 12,
+            Tier::Quick => 16,
             Tier::Thorough => {
                 if rng.chance(1, 8) {
                     60
                 } else {
-                    12
+                    16
                 }
             }
         };
@@ -487,6 +555,13 @@ impl Harness for C15 {
             flag_at_start: !rng.chance(1, 5),
             steps,
             deep_check: rng.chance(1, 8),
+            // Biased to late steps: leaked state needs earlier queries to exist.
+            probe_step: if rng.chance(3, 4) {
+                let nq = n as u32;
+                Some(if rng.chance(1, 2) { nq - 1 } else { rng.below(nq as u64) as u32 })
+            } else {
+                None
+            },
         }
     }
 
@@ -557,6 +632,16 @@ impl Harness for C15 {
             c.flag_at_start = true;
             out.push(c);
         }
+        if sc.probe_step.is_some() {
+            let mut c = sc.clone();
+            c.probe_step = None;
+            out.push(c);
+        }
+        if sc.deep_check {
+            let mut c = sc.clone();
+            c.deep_check = false;
+            out.push(c);
+        }
         if sc.start_ms != 1_470_166_240_000 {
             let mut c = sc.clone();
             c.start_ms = 1_470_166_240_000;
@@ -585,14 +670,15 @@ impl Harness for C15 {
     }
 
     fn rule(&self) -> String {
-        "One evaluation = one seeded history of 1..12 (thorough: up to 60) queries on one fresh Context (bundled definitions + currency snapshot) \
+        "One evaluation = one seeded history of 1..16 (thorough: up to 60) queries on one fresh Context (bundled definitions + currency snapshot) \
          driven only through rink_core::eval under a virtual wall clock, interleaved with clock advances, backward clock jumps and toggles of \
          save_previous_result. Queries come from a per-history weighted pool: plain numeric expressions with unique values, uses of ans/ANS/_ in every \
          operand position and as conversion source, conversions (unit, list, base, digits, temperature, currency), definition look-ups, units for / \
          factorize / search, substances, date results, results in seconds, failing queries of each error class, the empty line, and names that merely \
          resemble ans. After every query the reply (JSON and text) is compared with the reply of a separate context that is only touched through &self \
-         with previous_result preset from the model, and the stored previous result, clock and settings are compared with the model; 1 history in 8 also \
-         compares a full Debug dump of the context with a pristine one. Non-trivial = at least two queries; distinct = distinct digest of (scenario, all replies)."
+         with previous_result preset from the model, and the stored previous result, clock and settings are compared with the model; in 3 histories of 4 \
+         one seeded query is also evaluated on a context that has never evaluated anything (pristine probe), a disagreement with the shared reference is \
+         arbitrated by such a context, and 1 history in 8 also compares a full Debug dump of the context with a pristine one. Non-trivial = at least two queries; distinct = distinct digest of (scenario, all replies)."
             .into()
     }
 
@@ -627,6 +713,7 @@ impl Harness for C15 {
             "clock_jump_back",
             "flag_toggle",
             "deep_check",
+            "pristine_probe",
             "duration_reply_both_accepted",
         ]
     }
@@ -634,6 +721,13 @@ impl Harness for C15 {
 
 /// Cost probe (debugging aid): ./target/release/h-history time
 pub fn timing() {
+    let t = std::time::Instant::now();
+    let defs = rink_core::loader::gnu_units::parse_str(rink_core::DEFAULT_FILE.unwrap());
+    println!("parse definitions {:?}", t.elapsed());
+    let t = std::time::Instant::now();
+    let mut c2 = Context::new();
+    c2.load(defs).unwrap();
+    println!("load parsed defs {:?}", t.elapsed());
     let t = std::time::Instant::now();
     let mut ctx = rink_core::simple_context().unwrap();
     println!("simple_context {:?}", t.elapsed());
